@@ -415,7 +415,7 @@ func runMConn(c *core.Ctx, procs int) {
 	cutFrac := float64(r.Intn(1000)) / 1000
 	cutDirAB := r.Bool()
 
-	if wantCut {
+	if wantCut || sp.PingMs > 0 {
 		// a Send blocked on a full queue when the connection dies waits out the 10 s send timeout
 		for i := range sp.Chans {
 			sp.Chans[i].SendQ = 600
